@@ -176,6 +176,32 @@ func c11sandwich(judged []Choice) []Choice {
 	return out
 }
 
+// c11hostile: every truncation and every single-bit flip of two valid transactions, each delivered
+// between two valid transactions.
+func c11hostile() []Choice {
+	v1 := chain.Event{Kind: "tx", Tx: &chain.TxSpec{Msg: "send", From: 3, To: 2, Amount: 3}}
+	v2 := chain.Event{Kind: "tx", Tx: &chain.TxSpec{Msg: "send", From: 4, To: 3, Amount: 4}}
+	var out []Choice
+	for ti, spec := range []chain.TxSpec{{Msg: "send", From: 3, To: 2, Amount: 5, Entropy: 424242}, {Msg: "stake", From: 2, Amount: min, Entropy: 424243}} {
+		raw := chain.Build(spec)
+		add := func(label string, m []byte) {
+			e := chain.Event{Kind: "tx", Tx: &chain.TxSpec{Msg: "raw", Raw: append([]byte{}, m...)}}
+			out = append(out, Choice{Label: label, Block: chain.Block{Events: []chain.Event{v1, e, v2}}})
+		}
+		for l := 0; l < len(raw); l++ {
+			add(fmt.Sprintf("tx%d truncated to %d", ti, l), raw[:l])
+		}
+		for i := range raw {
+			for b := 0; b < 8; b++ {
+				m := append([]byte{}, raw...)
+				m[i] ^= 1 << uint(b)
+				add(fmt.Sprintf("tx%d bit %d.%d flipped", ti, i, b), m)
+			}
+		}
+	}
+	return out
+}
+
 func isReadOnly(e chain.Event) bool {
 	return e.Kind == "check" || e.Kind == "simulate" || e.Kind == "query"
 }
@@ -372,6 +398,18 @@ func init() {
 				// every judged call after every context block (jailed / unstaking / tombstoned / raised minimum ...)
 				{Name: "after-context", Cfg: c11cfg(), Alphabet: append(append([]Choice{}, ctx...), judged...), K: 2, D: 2, Tail: 1},
 			}
+			hostile := c11hostile()
+			if tier != "thorough" {
+				// quick: every 3rd mutation (the thorough tier runs all of them)
+				var sub []Choice
+				for i, c := range hostile {
+					if i%3 == 0 {
+						sub = append(sub, c)
+					}
+				}
+				hostile = sub
+			}
+			scs = append(scs, Scenario{Name: "hostile-bytes", Cfg: c11cfg(), Alphabet: hostile, K: 1, D: 1, Tail: 1})
 			if tier == "thorough" {
 				scs = append(scs, Scenario{Name: "after-2-contexts", Cfg: c11cfg(), Alphabet: append(append([]Choice{}, ctx...), judged...), K: 3, D: 3, Tail: 1})
 			}
